@@ -20,6 +20,16 @@ CHECKS = {
           "Tens of thousands of generated (matcher, configuration, input) cases; each compares the complete event stream and final byte count of search_slice with 4-8 other strategies: fragmented readers with hook-set buffer capacities down to 0/1 byte, the smallest sufficient heap limit found by bisection, search_path with and without mmap, inputs crossing the 64 KiB default buffer, and all of it again with multi_line(true) requested. Random exploration with shrinking.",
           "Needs the verif-hooks capacity hook to make the buffer roll on small inputs; Interrupted reads are exercised in C16, not here.",
           "DESIGN.md section 3 C02"),
+  "C05": (True, "exploration",
+          "proptest-driven generated trees with conflicting rule sources and flag sets; reference model of the documented filter precedence (FilterModel) vs rg --files",
+          "12 000 generated trees (200 000 thorough) carrying subsets of the seven rule sources at any depth including above the search root and the cwd, with forced conflicts between sources, .git present or absent, all --no-ignore-* / -u / --hidden / --no-require-git / -t / -T / --max-depth combinations and several root spellings; the listed files are compared in both directions with a from-scratch model of the documented order. All 21 ordered source pairs are contested in every run. Random exploration with shrinking.",
+          "The FilterModel is a reading of the documentation; combinations the documentation leaves undefined (anchored --ignore-file rules with absolute roots, anchored global rules, roots with ..) are rejected and counted; one known finding (parent ignore files see a re-based path) is tolerated only when an exact emulation of that defect reproduces the observed output.",
+          "DESIGN.md section 3 C05"),
+  "C09": (True, "exploration",
+          "proptest-driven generated (pattern, input, flag set) cases; the real binary's stdout is parsed by a grammar derived from the flags and every record checked against the file bytes (round-trip), columns/submatches against the per-line regex oracle",
+          "6 000 generated cases (120 000 thorough) over -n -b --column --vimgrep -H/-I --heading --null -A -B --json -U --crlf -v -i, mmap on/off, inputs with invalid UTF-8, multi-byte characters, very long lines (up to 75 KB), CRLF and missing final newline: every printed body must be a line of the file byte for byte with its own line number / offset, column = first match start (all matches for --vimgrep), separators exactly between non-adjacent lines; JSON decoded lines/submatches must reproduce the file bytes, text vs base64 by UTF-8 validity in both directions, begin (match|context)* end. Random exploration with shrinking.",
+          "Line selection itself is C01/C03; under -U the column is asserted only for the first line of a block; columns under -v are excluded (undocumented); two known shapes (CRLF re-termination; the C10 trailing-empty-match shape) are tolerated / excluded by exact signature.",
+          "DESIGN.md section 3 C09"),
   "C10": (True, "exploration",
           "proptest-driven generated trees/patterns/flags; metamorphic relations between nine reporting modes of the real rg binary",
           "Thousands of generated (tree, pattern, flags) cases, a third with patterns that match the empty string; each runs the real binary under standard, -c, --count-matches, -o, -l, --files-without-match, -q, --json and --stats and checks the documented pairwise relations per file and in total (counts, submatches, partitions of the searched files, exit status, stats sums). Random exploration with shrinking.",
@@ -40,6 +50,11 @@ CHECKS = {
           "Tens of thousands of generated -U patterns (templates around \\n plus grammar-generated ones forced to cross line boundaries) on inputs assembled from strings of the pattern's language; the delivered match blocks, context, numbering and offsets are compared with an independent enumeration of the matches over the whole input, with and without -v, context, CRLF/NUL, under slice, reader, file and mmap strategies. Random exploration with shrinking.",
           "Trusts RegexMatcher::find_at on the whole input; where ripgrep's advance rule and the regex crate's iterator rule give different line sets either is accepted; one known finding (inverted mode restarts at the line block end) is tolerated by exact signature.",
           "DESIGN.md section 3 C13"),
+  "C15": (True, "fault_enumeration",
+          "fault enumeration at the CLI: generated trees x injected faults (mode-000 files/dirs as uid 65534, dangling symlinks, missing paths, read errors, invalid arguments) x 7 modes x -j1/-j4, and stdout closed after every k bytes; decision-table oracle + differential against a fault-free run",
+          "3 000 fault cases (60 000 thorough) with both matching and faulty entries populated in every cell of the (match x fault x mode x threads) table, compared with the exit-status decision table, per-file diagnostics on stderr and a fault-free reference run on the tree minus the faulty entries; ~400 invalid-argument combinations (status 2, empty stdout); closed-pipe runs for every k up to 320 bytes (4 KiB thorough) and buffer-boundary k for outputs up to 400 KiB (status 0, no diagnostic, termination).",
+          "Files removed or truncated between listing and opening are not reachable from the CLI; closed pipe combined with a per-file fault is left unasserted (the property gives no rule); a watchdog expiry is inconclusive unless a second, longer run confirms it.",
+          "DESIGN.md section 3 C15"),
   "C16": (True, "fault_enumeration",
           "fault enumeration over one generated run: sink stop and sink error at every event index, reader error and Interrupted at every read index; oracle = prefix of the uninterrupted event log",
           "For each of tens of thousands of generated searches every event index (begin, match, context, break, binary notice) is used once as a stop point and once as an error point, and every read index once as an I/O error and once as Interrupted; delivered events must be exactly the prefix, finish exactly once after a stop and never after an error, the error returned. Complete over the fault points of each explored run; runs themselves are sampled.",
